@@ -105,7 +105,7 @@ int hex2bin(const char *in, size_t inlen, uint8_t *out)
 {
 	int c;
 	if (inlen % 2) {
-		error_print_msg("hex %s len = %zu\n", in, inlen);
+		error_print_msg("hex len = %zu\n", inlen);
 		return -1;
 	}
 
